@@ -21,7 +21,7 @@ def run_be(PID, prop_file, gen, monitor, nontrivial, rule, n_quick=400, n_thorou
         broken = standard_proof_phase(ck, prop_file)
         facts = srcfacts_values()
         ck.tie.append({'T-src facts': {k: facts.get(k) for k in ('be_refresh_after_clock', 'be_format_catch_all', 'be_format_catch_std',
-                                                                  'be_pop_before_flag', 'tcm_invalid_count_bits', 'bq_publish_on_drain')}})
+                                                                  'be_pop_before_flag', 'be_report_before_ctx_removal', 'tcm_invalid_count_bits', 'bq_publish_on_drain')}})
         mexe, err = ck.build_modelrun()
         if not mexe:
             ck.violation('no-failing-input-found', 'model extraction/build failed: ' + err[-400:]); return ck.finish(trusted=trusted or TRUSTED_BE)
